@@ -244,9 +244,20 @@ def r17_3(prog, rep):
                     elif kind == "incdec":
                         years.add(lv(l))
             if len(months) == 1 and len(years - months) == 1:
-                pairs[months.pop()] = (years - months).pop()
+                pairs.setdefault(months.pop(), set()).add((years - months).pop())
         if not pairs:
             continue
+        # a carry done inside a helper that the inliner spliced in comes back through `Y = __ret_helper`, `__ret_helper = Y$helper`:
+        # the receiving variable is the paired year
+        for _round in range(3):
+            for b, i, x, line in cfg.all_elems():
+                for l, kind, nn in writes(x):
+                    if kind == "assign" and nn.get("k") == "bin" and nn["op"] == "=":
+                        r = strip_casts(cfg.resolve(nn["r"]))
+                        if r.get("k") == "ref" and ("$" in r["n"] or r["n"].startswith("__ret_")):
+                            for m_, ys in pairs.items():
+                                if r["n"] in ys:
+                                    ys.add(lv(l))
         for b, i, c, line in f.all_calls():
             callee = c.get("fn")
             if not callee or not prog.functions.get(callee):
@@ -259,12 +270,12 @@ def r17_3(prog, rep):
                 continue
             n += 1
             key = "%s/%s(%s)@%d" % (f.name, callee, ma, sum(1 for bb, ii, cc, ll in f.all_calls() if cc.get("fn") == callee and (ll, bb, ii) <= (line, b, i)))
-            if ya == pairs[ma]:
+            if ya in pairs[ma]:
                 rep.ok(rid, key, f.loc(line), "%s(%s, %s): year and month of one carry pair" % (callee, ya, ma))
             else:
                 rep.fail(rid, key, f.loc(line),
                          "%s() is asked about month %s of year `%s`, but %s carries into %s: once the walk has crossed a year boundary the month "
-                         "length/weekday of the wrong year is used (February of a leap vs. common year)" % (callee, ma, ya, ma, pairs[ma]))
+                         "length/weekday of the wrong year is used (February of a leap vs. common year)" % (callee, ma, ya, ma, "/".join(sorted(pairs[ma]))))
     if n < 4:
         rep.broken_("rule=R17.3 expected >=4 (year, month) helper calls on carry pairs, found %d" % n)
 
